@@ -196,19 +196,20 @@ example :
   decide
 
 /-- **failed_writes_leave_nothing.** Under every schedule: a `Write` that failed to open the file
-(states 6, 7) has no record in the file — and never will (`order` only grows by appends) — while every
+(states 6, 7) or whose `write(2)` failed after the record had been encoded into the pooled buffer
+(states 8, 9: no space left; round 4) has no record in the file — and never will (`order` only grows by appends) — while every
 `Write` that returned successfully (state 5) has its record there, once; the buffers the failed calls
 return to the pool do not damage later records (`file_is_lines` holds for the same runs). -/
 theorem failed_writes_leave_nothing (J : Jobs) (ops : List (Nat × Option Nat)) :
     let s := FS.run J {} ops
-    (∀ i, s.pc i = 6 ∨ s.pc i = 7 → i ∉ s.order) ∧ (∀ i, s.pc i = 5 → i ∈ s.order) ∧ s.order.Nodup ∧
-      s.file = (s.order.map (lineOf J)).flatten := by
+    (∀ i, s.pc i = 6 ∨ s.pc i = 7 ∨ s.pc i = 8 ∨ s.pc i = 9 → i ∉ s.order) ∧ (∀ i, s.pc i = 5 → i ∈ s.order) ∧
+      s.order.Nodup ∧ s.file = (s.order.map (lineOf J)).flatten := by
   intro s
   obtain ⟨hf, hnd, hord, _⟩ := file_is_lines J ops
   refine ⟨?_, ?_, hnd, hf⟩
   · intro i hi hm
     have h45 := (hord i).mp hm
-    rcases hi with hi | hi <;> rcases h45 with h45 | h45 <;> rw [hi] at h45 <;> cases h45
+    rcases hi with hi | hi | hi | hi <;> rcases h45 with h45 | h45 <;> rw [hi] at h45 <;> cases h45
   · intro i hi
     exact (hord i).mpr (Or.inr hi)
 
@@ -510,6 +511,158 @@ theorem file_lines_all_read (J : Jobs) (ops : List (Nat × Option Nat)) :
   obtain ⟨job, hj, hline⟩ := hjobs i hi
   exact ⟨job, hj, by rw [hline]; exact line_integrity _ _⟩
 
+
+
+/-- Non-vacuity for the write failure (round 4): writer 0 encodes its record and the `write(2)` fails
+(state 8); the buffer it returns to the pool (state 9) still holds the whole unwritten record; writer
+1 is handed that very buffer, and the file is exactly writer 1's record: the `Reset` after
+`Pool.Get` is what keeps the failed record out (it is a no-op in every run without such a failure). -/
+example :
+    let J : Jobs := fun i => if i < 2 then some (exEntry, i) else none
+    let s9 := FS.run J {} [(0, none), (0, none), (0, none), (0, some 0), (0, none)]
+    let s := FS.run J s9 [(1, some 0), (1, none), (1, none), (1, none), (1, none)]
+    s9.pc 0 = 9 ∧ (s9.bufs 0).ent = some (exEntry, 0) ∧ s9.free = [0] ∧ s9.order = [] ∧
+      s.hold 1 = 0 ∧ s.pc 1 = 5 ∧ s.order = [1] := by
+  decide
+
+/-- The buffer a failed write returns to the pool is dirty: it holds the complete unwritten record. -/
+example :
+    let J : Jobs := fun i => if i < 2 then some (exEntry, i) else none
+    ((FS.run J {} [(0, none), (0, none), (0, none), (0, some 0), (0, none)]).bufs 0).bytes = lineOf J 0 := by
+  rfl
+
+/-! ## Production wiring (round 4) -/
+
+/-- The declarative reading of the configuration documentation: which profile and device a request to
+server `sv` of group `g` belongs to.  Only a group with `profiles_enabled`; on an encrypted server by
+the device ID in the first label of a TLS server name directly under one of the group's own
+`device_id_wildcards`; on a plain-DNS server with `linked_ip_enabled` by the linked address; the
+profile must not be deleted and the device's authentication must accept the request. -/
+def Identified (g : WGroup) (sv : WServer) (id : Ident) (p : Prof) (d : Str) : Prop :=
+  g.profilesEnabled = true ∧
+    (((sv.proto = 3 ∨ sv.proto = 4 ∨ sv.proto = 5) ∧ (∃ lab dom, id.sni = some (lab, dom) ∧ dom ∈ g.domains) ∧
+        id.byID = .found p d false true) ∨
+     (sv.proto = 8 ∧ sv.linkedIP = true ∧ id.byLinked = .found p d false true))
+
+/-- **wired_identified_iff.** The device result the handler of (`g`, `sv`) works with is `OK p d`
+exactly for the requests the documentation attributes to `p`, `d` — for every content of the shared
+profile database. -/
+theorem wired_identified_iff (g : WGroup) (sv : WServer) (id : Ident) (p : Prof) (d : Str) :
+    wiredDev g sv id = .ok p d ↔ Identified g sv id p d := by
+  unfold wiredDev wiredLookup
+  cases hpe : g.profilesEnabled
+  · simp [Identified, hpe]
+  · have hsome := wiredDevID_isSome g sv id
+    cases hdev : wiredDevID g sv id with
+    | some lab =>
+      have h := hsome.mp (by simp [hdev])
+      have hne : sv.proto ≠ 8 := by rcases h.1 with h | h | h <;> omega
+      have hsup : supportsDeviceID sv.proto = true := by
+        rcases h.1 with h | h | h <;> simp [supportsDeviceID, h]
+      simp only [not_true_eq_false, ↓reduceIte, findDevice_ok_iff, hsup, true_and]
+      constructor
+      · intro hb; exact ⟨hpe, Or.inl ⟨h.1, h.2, hb⟩⟩
+      · rintro ⟨_, hh | hh⟩
+        · exact hh.2.2
+        · exact absurd hh.1 hne
+    | none =>
+      have hno : ¬ ((sv.proto = 3 ∨ sv.proto = 4 ∨ sv.proto = 5) ∧ ∃ lab dom, id.sni = some (lab, dom) ∧ dom ∈ g.domains) := by
+        intro hh; have := hsome.mpr hh; simp [hdev] at this
+      simp only [not_true_eq_false, ↓reduceIte]
+      by_cases h8 : sv.proto = 8 ∧ sv.linkedIP = true
+      · have hsup : supportsDeviceID sv.proto = true := by simp [supportsDeviceID, h8.1]
+        rw [if_pos h8]
+        simp only [findDevice_ok_iff, hsup, true_and]
+        constructor
+        · intro hb; exact ⟨hpe, Or.inr ⟨h8.1, h8.2, hb⟩⟩
+        · rintro ⟨_, hh | hh⟩
+          · exact absurd ⟨hh.1, hh.2.1⟩ hno
+          · exact hh.2.2
+      · rw [if_neg h8]
+        simp only [findDevice_ok_iff]
+        constructor
+        · rintro ⟨_, hb⟩; cases hb
+        · rintro ⟨_, hh | hh⟩
+          · exact absurd ⟨hh.1, hh.2.1⟩ hno
+          · exact absurd ⟨hh.1, hh.2.1⟩ h8
+def exGroup : WGroup := ⟨true, [[100, 49]]⟩
+def exIdent : Ident := { sni := some ([100], [100, 49]), byID := .found exProf [100] false true }
+
+example : Identified exGroup ⟨5, false⟩ exIdent exProf [100] ∧
+    wiredDev ⟨false, [[100, 49]]⟩ ⟨5, false⟩ exIdent = .anon ∧
+    wiredDev ⟨true, [[100, 50]]⟩ ⟨5, false⟩ exIdent = .anon := by
+  refine ⟨⟨rfl, Or.inl ⟨by decide, ⟨[100], [100, 49], rfl, by decide⟩, rfl⟩⟩, by decide, by decide⟩
+
+/-- **wired_line_iff.** (reference monitor for the whole configured service.)  A request to server
+`sv` of server group `g` adds a record to the file at `QUERYLOG_PATH` if and only if
+`query_log.file.enabled` is set, the documentation attributes the request to a profile with query
+logging enabled, and the request was served.  Whatever the other groups' settings are and whatever the
+shared profile database holds. -/
+theorem wired_line_iff (fe : Bool) (g : WGroup) (sv : WServer) (id : Ident) (q : Req) (rn : Nat) :
+    wiredFile fe g sv id q rn ≠ [] ↔
+      fe = true ∧ ∃ p d, Identified g sv id p d ∧ p.qlog = true ∧ Served (wiredReq g sv id q) := by
+  have hne : ∀ e : Entry, encodeLine e rn ≠ [] := by intro e; simp [encodeLine]
+  unfold wiredFile wiredServe
+  cases fe
+  · simp
+  · simp only [↓reduceIte, true_and]
+    have hl := log_iff (wiredReq g sv id q)
+    cases hlog : (serve (wiredReq g sv id q)).log with
+    | none =>
+      simp only [ne_eq, not_true_eq_false, false_iff]
+      rintro ⟨p, d, hid, hq, hs⟩
+      have : (serve (wiredReq g sv id q)).log.isSome = true :=
+        hl.mpr ⟨p, d, by simpa [wiredReq] using (wired_identified_iff g sv id p d).mpr hid, hq, hs⟩
+      simp [hlog] at this
+    | some e =>
+      simp only [ne_eq, hne e, not_false_eq_true, true_iff]
+      obtain ⟨p, d, hd, hq, hs⟩ := hl.mp (by simp [hlog])
+      exact ⟨p, d, (wired_identified_iff g sv id p d).mp (by simpa [wiredReq] using hd), hq, hs⟩
+
+example : wiredFile true exGroup ⟨5, false⟩ exIdent exReq 7 ≠ [] ∧ wiredFile false exGroup ⟨5, false⟩ exIdent exReq 7 = [] := by
+  decide
+
+/-- **wired_profiles_disabled_never_recorded.** A server group without `profiles_enabled` never
+produces a log record or a billing record — also when the profile database (shared with the other
+groups) knows the device ID in the server name or the client's address. -/
+theorem wired_profiles_disabled_never_recorded (fe : Bool) (g : WGroup) (sv : WServer) (id : Ident) (q : Req) (rn : Nat)
+    (h : g.profilesEnabled = false) :
+    (wiredServe g sv id q).log = none ∧ (wiredServe g sv id q).bill = none ∧ wiredFile fe g sv id q rn = [] := by
+  have hd : (wiredReq g sv id q).dev.data = none := by simp [wiredReq, wiredDev, wiredLookup, h, DevRes.data]
+  obtain ⟨h1, h2⟩ := anonymous_dropped_blocked_never_logged (wiredReq g sv id q) (Or.inl hd)
+  refine ⟨h1, h2, ?_⟩
+  unfold wiredFile wiredServe
+  cases fe <;> simp [h1]
+
+/-- **wired_foreign_domain_not_attributed.** A TLS server name under a device domain of *another*
+server group does not attribute the request here: no record, no bill. -/
+theorem wired_foreign_domain_not_attributed (g : WGroup) (sv : WServer) (id : Ident) (q : Req) (lab dom : Str)
+    (hs : id.sni = some (lab, dom)) (hd : dom ∉ g.domains) (hp : sv.proto ≠ 8) :
+    (wiredServe g sv id q).log = none ∧ (wiredServe g sv id q).bill = none := by
+  have hdev : (wiredReq g sv id q).dev.data = none := by
+    simp only [wiredReq, wiredDev, wiredLookup, wiredDevID, hs, hd, and_false, ↓reduceIte, hp, false_and]
+    cases g.profilesEnabled <;> simp [findDevice, DevRes.data]
+  exact anonymous_dropped_blocked_never_logged (wiredReq g sv id q) (Or.inl hdev)
+
+example : (wiredServe ⟨true, [[100, 50]]⟩ ⟨5, false⟩ exIdent exReq).bill = none := by decide
+
+/-- **wired_file_disabled_no_line.** With `query_log.file.enabled: false` nothing is written, for
+every request; billing is unaffected. -/
+theorem wired_file_disabled_no_line (g : WGroup) (sv : WServer) (id : Ident) (q : Req) (rn : Nat) :
+    wiredFile false g sv id q rn = [] := by simp [wiredFile]
+
+/-- **wired_line_protocol.** The `p` member of a record is the number doc/querylog.md gives for
+the configured protocol of the server that received the request (`dns` 8, `dnscrypt` 9, `https` 3,
+`quic` 4, `tls` 5), and name, type, ID and time are the request's. -/
+theorem wired_line_describes_request (g : WGroup) (k : Nat) (linked : Bool) (id : Ident) (q : Req) (e : Entry)
+    (h : (wiredServe g ⟨protoOfYAML k, linked⟩ id q).log = some e) :
+    e.proto = protoOfYAML k ∧ e.name = q.name ∧ e.qtype = q.qtype ∧ e.reqId = q.reqId ∧ e.timeMs = q.startMs ∧
+      (∀ a, e.ip = some a → a = q.remoteIP) := by
+  obtain ⟨h1, h2, h3, h4, h5, _, _, _, _, h10, _⟩ := entry_describes_request _ e h
+  exact ⟨h3, h1, h2, h4, h5, h10⟩
+
+example : protoOfYAML 4 = 5 ∧ protoOfYAML 0 = 8 ∧ protoOfYAML 2 = 3 ∧ protoOfYAML 3 = 4 ∧ protoOfYAML 1 = 9 := by decide
+
 end Agd.Record
 
 #print axioms Agd.Record.logged_only_if_opted_in
@@ -538,6 +691,12 @@ end Agd.Record
 #print axioms Agd.Record.first_address_record_decides
 #print axioms Agd.Record.no_address_record_no_ip
 #print axioms Agd.Record.https_first_hint_decides
+#print axioms Agd.Record.wired_identified_iff
+#print axioms Agd.Record.wired_line_iff
+#print axioms Agd.Record.wired_profiles_disabled_never_recorded
+#print axioms Agd.Record.wired_foreign_domain_not_attributed
+#print axioms Agd.Record.wired_file_disabled_no_line
+#print axioms Agd.Record.wired_line_describes_request
 #print axioms Agd.Tie.TrC15.translation_complete
 #print axioms Agd.Tie.TrC15.convertElapsed_tr
 #print axioms Agd.Tie.TrC15.toResultCode_tr
